@@ -24,9 +24,10 @@ def main():
     ran = []
     # make sure the worktree holds exactly the patch (plus the demo)
     sh("git checkout -- ruzstd/src cli/src && git apply --whitespace=nowarn patch.diff", cwd=wt)
-    shutil.move(demo, "/tmp/_demo_aside.rs")
+    aside = f"/tmp/_demo_aside_{os.getpid()}.rs"
+    shutil.move(demo, aside)
     rc, out = sh("cargo test --workspace --no-fail-fast --offline 2>&1", cwd=wt, env=env)
-    shutil.move("/tmp/_demo_aside.rs", demo)
+    shutil.move(aside, demo)
     suite = results(out)
     suite_green = bool(suite) and all(" 0 failed" in l for l in suite) and rc == 0
     ran.append({"cmd": "cargo test --workspace --no-fail-fast --offline  (with the change, demo set aside)", "result": suite})
@@ -52,7 +53,8 @@ def main():
     tmp = f"/tmp/seedpatches/{checks.replace(',', '_')}-seeded-{name}.patch"
     os.makedirs("/tmp/seedpatches", exist_ok=True)
     shutil.copy(patch, tmp)
-    rc, out = sh(f"{VERIF}/tools/mutants.py --no-suite --checks {checks} {tmp}", timeout=7200)
+    root = os.environ.get("SEED_ROOT", "/tmp/vmut")
+    rc, out = sh(f"{VERIF}/tools/mutants.py --no-suite --root {root} --checks {checks} {tmp}", timeout=7200)
     line = [l for l in out.splitlines() if l.startswith("(")]
     verdict = "CAUGHT" if "'CAUGHT'" in out else "MISSED"
     detail = line[-1] if line else out[-400:]
